@@ -762,6 +762,12 @@ func (b *QueryBuilder) FieldToken(field, token string) *QueryBuilder {
 }
 
 func (b *QueryBuilder) where(expression BloomExpression) *QueryBuilder {
+	// Conditions chained before Match stay in the conjunction, exactly like
+	// conditions chained after it (see addBloomExpression).
+	if !b.bloomExplicitSet && len(b.implicitBloomAnd) > 0 {
+		operands := append(append([]BloomExpression(nil), b.implicitBloomAnd...), expression)
+		expression = And(operands...)
+	}
 	b.bloomExplicitSet = true
 	b.implicitBloomAnd = b.implicitBloomAnd[:0]
 	b.query.Bloom.Expression = &expression
@@ -778,6 +784,11 @@ func (b *QueryBuilder) FieldRegex(field, pattern string) *QueryBuilder {
 }
 
 func (b *QueryBuilder) whereRegex(expression RegexExpression) *QueryBuilder {
+	// Conditions chained before MatchRegex stay in the conjunction too.
+	if !b.regexExplicitSet && len(b.implicitRegexAnd) > 0 {
+		operands := append(append([]RegexExpression(nil), b.implicitRegexAnd...), expression)
+		expression = RegexAnd(operands...)
+	}
 	b.regexExplicitSet = true
 	b.implicitRegexAnd = b.implicitRegexAnd[:0]
 	b.query.Regex.Expression = &expression
